@@ -147,7 +147,19 @@ fn roundtrip_family(spec: &GenSpec, rep: &mut Report, rng: &mut ChaCha8Rng) {
             }
             rep.eval();
             let bytes = vk.to_bytes(wf);
-            let r = catch_any(|| VerifyingKey::<Fq, CS>::from_bytes::<GenCircuit>(&bytes, rf, spec.clone()));
+            // read from a stream that continues after the key: the reader must stop exactly at
+            // the end of the key
+            let mut stream = bytes.clone();
+            stream.extend_from_slice(b"SENTINEL-AFTER-KEY");
+            let mut cur = Cursor::new(&stream);
+            let r = catch_any(|| VerifyingKey::<Fq, CS>::read::<_, GenCircuit>(&mut cur, rf, spec.clone()));
+            if matches!(r, Ok(Ok(_))) && cur.position() as usize != bytes.len() {
+                rep.violation(
+                    &format!("C17/vk-roundtrip/reader-position write={wname} read={rname}"),
+                    &format!("VerifyingKey::read consumed {} bytes of a {}-byte encoding: whatever follows the key on the stream is lost", cur.position(), bytes.len()),
+                    json!({"spec": spec, "write": wname, "read": rname}),
+                );
+            }
             let wit = json!({"spec": spec, "write": wname, "read": rname});
             match r {
                 Err(p) => rep.violation(
@@ -181,7 +193,17 @@ fn roundtrip_family(spec: &GenSpec, rep: &mut Report, rng: &mut ChaCha8Rng) {
             // proving key
             rep.eval();
             let pbytes = pk.to_bytes(wf);
-            let r = catch_any(|| ProvingKey::<Fq, CS>::from_bytes::<GenCircuit>(&pbytes, rf, spec.clone()));
+            let mut stream = pbytes.clone();
+            stream.extend_from_slice(b"SENTINEL-AFTER-KEY");
+            let mut cur = Cursor::new(&stream);
+            let r = catch_any(|| ProvingKey::<Fq, CS>::read::<_, GenCircuit>(&mut cur, rf, spec.clone()));
+            if matches!(r, Ok(Ok(_))) && cur.position() as usize != pbytes.len() {
+                rep.violation(
+                    &format!("C17/pk-roundtrip/reader-position write={wname} read={rname}"),
+                    &format!("ProvingKey::read consumed {} bytes of a {}-byte encoding", cur.position(), pbytes.len()),
+                    json!({"spec": spec, "write": wname, "read": rname}),
+                );
+            }
             let wit = json!({"spec": spec, "write": wname, "read": rname, "object": "pk"});
             match r {
                 Err(p) => rep.violation(
@@ -283,6 +305,18 @@ fn relation_roundtrip<R: Relation>(name: &str, rel: &R, sample: (R::Instance, R:
         let mut b = vec![];
         vk.write(&mut b, f).unwrap();
         let wit = json!({"relation": name, "format": fname});
+        {
+            let mut stream = b.clone();
+            stream.extend_from_slice(b"SENTINEL");
+            let mut cur = Cursor::new(&stream);
+            if matches!(catch_any(|| MidnightVK::read(&mut cur, f)), Ok(Ok(_))) && cur.position() as usize != b.len() {
+                rep.violation(
+                    &format!("C17/MidnightVK-roundtrip/reader-position {fname}"),
+                    &format!("MidnightVK::read consumed {} bytes of a {}-byte encoding", cur.position(), b.len()),
+                    wit.clone(),
+                );
+            }
+        }
         let vk2 = match catch_any(|| MidnightVK::read(&mut Cursor::new(&b), f)) {
             Ok(Ok(v)) => v,
             other => {
@@ -356,7 +390,18 @@ fn params_checks(rep: &mut Report, kmax: u32) {
         rep.eval();
         let mut b = vec![];
         big.write_custom(&mut b, f).unwrap();
-        match catch_any(|| ParamsKZG::<Bls12>::read_custom(&mut Cursor::new(&b), f)) {
+        let mut stream = b.clone();
+        stream.extend_from_slice(b"SENTINEL-AFTER-PARAMS");
+        let mut cur = Cursor::new(&stream);
+        let read = catch_any(|| ParamsKZG::<Bls12>::read_custom(&mut cur, f));
+        if matches!(read, Ok(Ok(_))) && cur.position() as usize != b.len() {
+            rep.violation(
+                &format!("C17/params-roundtrip/reader-position {fname}"),
+                &format!("ParamsKZG::read_custom consumed {} bytes of a {}-byte encoding: objects that follow the parameters on the same stream cannot be read", cur.position(), b.len()),
+                json!({"k": kmax, "format": fname}),
+            );
+        }
+        match read {
             Ok(Ok(p2)) => {
                 let mut b2 = vec![];
                 p2.write_custom(&mut b2, f).unwrap();
